@@ -31,6 +31,31 @@ pub fn arb_ref_with_malformed() -> BoxedStrategy<AckRef> {
     .boxed()
 }
 
+/// A long ack-id list around a batching boundary: `lead` real references first (or last),
+/// padding with never-issued ids, optionally one malformed id at the start, middle or end.
+pub fn arb_long_refs(malformed: bool) -> BoxedStrategy<Vec<AckRef>> {
+    let lens = prop_oneof![Just(15usize), Just(16), Just(17), Just(32), Just(33), Just(64), Just(65), Just(127), Just(128), Just(129), Just(255), Just(256), Just(257), Just(300), Just(511), Just(512), Just(513), Just(999), Just(1000), Just(1001), Just(1024), Just(1025)];
+    (lens, 0u8..3, 0u8..3, any::<bool>(), 0u8..12)
+        .prop_map(move |(len, lead_pos, bad_pos, with_bad, bad_kind)| {
+            let mut v: Vec<AckRef> = (0..len as u32).map(|i| AckRef::Unknown(1000 + i)).collect();
+            let place = |pos: u8, len: usize| match pos {
+                0 => 0,
+                1 => len / 2,
+                _ => len - 1,
+            };
+            v[place(lead_pos, len)] = AckRef::Recent(0);
+            if malformed && with_bad {
+                let mut p = place(bad_pos, len);
+                if p == place(lead_pos, len) {
+                    p = (p + 1) % len;
+                }
+                v[p] = AckRef::Malformed(bad_kind);
+            }
+            v
+        })
+        .boxed()
+}
+
 pub fn arb_points(max: usize) -> BoxedStrategy<Vec<PointSpec>> {
     vec(
         (0u8..POINT_NAMES.len() as u8, 0u8..6, 1u8..5).prop_map(|(point, nth, yields)| PointSpec { point, nth, yields }),
@@ -65,10 +90,12 @@ pub struct W {
     pub get_sub: u32,
     pub list: u32,
     pub publish: u32,
+    pub publish_many: u32,
     pub pull_ri: u32,
     pub pull_block: u32,
     pub pull_all: u32,
     pub ack: u32,
+    pub long_ack: u32,
     pub nack: u32,
     pub modify: u32,
     pub stream_open: u32,
@@ -80,6 +107,8 @@ pub struct W {
     pub advance: u32,
     pub goto: u32,
     pub abort: u32,
+    /// a Pull whose future is polled k times and then dropped (abandoned consumer)
+    pub abandon_pull: u32,
     pub burst: u32,
     pub check_lists: u32,
     pub bad_refs: u32,
@@ -108,10 +137,12 @@ impl Default for W {
             get_sub: 0,
             list: 0,
             publish: 10,
+            publish_many: 0,
             pull_ri: 6,
             pull_block: 3,
             pull_all: 2,
             ack: 5,
+            long_ack: 0,
             nack: 3,
             modify: 2,
             stream_open: 2,
@@ -123,6 +154,7 @@ impl Default for W {
             advance: 4,
             goto: 0,
             abort: 0,
+            abandon_pull: 0,
             burst: 0,
             check_lists: 0,
             bad_refs: 1,
@@ -203,10 +235,18 @@ pub fn arb_op(w: &W) -> BoxedStrategy<Op> {
         w.publish,
         (t.clone(), 1u8..6, arb_payload(w.payload_rich), a.clone()).prop_map(|(t, n, payload, a)| Op::Publish { t, n, payload, a }).boxed(),
     );
+    add(
+        w.publish_many,
+        (t.clone(), prop_oneof![Just(31u32), Just(32), Just(33), Just(64), Just(65), Just(100), Just(255), Just(256), Just(257), Just(1000), Just(1001)], a.clone())
+            .prop_map(|(t, n, a)| Op::PublishMany { t, n, a })
+            .boxed(),
+    );
     add(w.pull_ri, (s.clone(), maxm.clone(), a.clone()).prop_map(|(s, max, a)| Op::Pull { s, max, ri: true, a }).boxed());
     add(w.pull_block, (s.clone(), maxm.clone()).prop_map(|(s, max)| Op::Pull { s, max, ri: false, a: true }).boxed());
     add(w.pull_all, s.clone().prop_map(|s| Op::PullAll { s }).boxed());
     add(w.ack, (s.clone(), refs.clone(), a.clone()).prop_map(|(s, refs, a)| Op::Ack { s, refs, a }).boxed());
+    add(w.long_ack, (s.clone(), arb_long_refs(false), a.clone()).prop_map(|(s, refs, a)| Op::Ack { s, refs, a }).boxed());
+    add(w.long_ack, (s.clone(), arb_long_refs(false), secs.clone(), a.clone()).prop_map(|(s, refs, secs, a)| Op::Modify { s, refs, secs, a }).boxed());
     add(w.nack, (s.clone(), refs.clone(), a.clone()).prop_map(|(s, refs, a)| Op::Modify { s, refs, secs: 0, a }).boxed());
     add(w.modify, (s.clone(), refs.clone(), secs.clone(), a.clone()).prop_map(|(s, refs, secs, a)| Op::Modify { s, refs, secs, a }).boxed());
     add(w.stream_open, (s.clone(), prop_oneof![Just(0i32), Just(1), Just(2), Just(10), Just(1000)]).prop_map(|(s, max_out)| Op::StreamOpen { s, max_out }).boxed());
@@ -228,6 +268,12 @@ pub fn arb_op(w: &W) -> BoxedStrategy<Op> {
             .boxed(),
     );
     add(w.abort, (0u8..8).prop_map(|c| Op::Abort { c }).boxed());
+    add(
+        w.abandon_pull,
+        (s.clone(), maxm.clone(), any::<bool>(), 0u8..4, any::<bool>())
+            .prop_map(|(s, max, ri, k, settle_between)| Op::PollDrop { op: Box::new(Op::Pull { s, max, ri, a: false }), k, settle_between })
+            .boxed(),
+    );
     add(w.burst, (bk, s.clone(), t.clone(), bn0..=bn1).prop_map(|(kind, s, t, n)| Op::Burst { kind, s, t, n }).boxed());
     add(w.check_lists, Just(Op::CheckLists).boxed());
     proptest::strategy::Union::new_weighted(alts).boxed()
